@@ -14,7 +14,7 @@ static const char *onames[OP_MAX] = {
 	"NONE", "REG", "UNREG", "SETH", "POST", "QUIT", "CONSUME", "PRODUCE",
 	"CLOSE", "SHUTDOWN", "WORK", "INVAL", "SLEEP", "COOKIE", "RAISE",
 	"TKILL", "SUBMIT", "PUT", "SPAWN", "WKILL", "FSOP", "PCLOSE",
-	"BULK", "BURST", "YIELD",
+	"BULK", "BURST", "YIELD", "RFORK",
 };
 
 const char *kind_name(int k) { return k >= 0 && k < K_MAX ? knames[k] : "?"; }
